@@ -7,7 +7,7 @@ exit status, number of VIOLATION lines, first line, what the first replay file s
 work/seeded_par.json."""
 import json, os, subprocess, sys, glob, time, shutil, threading
 V = os.path.dirname(os.path.dirname(os.path.abspath(__file__)))
-K, only, seed, tag = 4, None, None, ""
+K, only, seed, tag, SDIR = 4, None, None, "", "seeded"
 args = sys.argv[1:]
 while args:
     a = args.pop(0)
@@ -15,11 +15,14 @@ while args:
         K = int(args.pop(0))
     elif a == "--only":
         only = set(args.pop(0).split(","))
+    elif a == "--dir":
+        SDIR = args.pop(0)
+        tag += "_" + SDIR
     elif a == "--seed":
         seed = args.pop(0)
         tag = "_seed" + seed
 ROOT = "/tmp/verif-par" + tag
-seeds = [os.path.basename(d) for d in sorted(glob.glob(os.path.join(V, "seeded", "*"))) if os.path.isdir(d)]
+seeds = [os.path.basename(d) for d in sorted(glob.glob(os.path.join(V, SDIR, "*"))) if os.path.isdir(d)]
 if only:
     seeds = [s for s in seeds if s in only]
 # longest first would be better; round-robin is good enough
@@ -49,9 +52,12 @@ def worker(k, ids):
     open(gm, "w").write(txt)
     env = dict(env0, VERIF_REPO=repo, VERIF_JOBS=str(max(2, 16 // K)))
     for sid in ids:
-        d = os.path.join(V, "seeded", sid)
+        d = os.path.join(V, SDIR, sid)
         meta = json.load(open(os.path.join(d, "meta.json")))
-        props = [meta["breaks_property"]] + [p for p in meta.get("also_checks", []) if p != meta["breaks_property"]]
+        if "checks" in meta:
+            props = list(meta["checks"])
+        else:
+            props = [meta["breaks_property"]] + [p for p in meta.get("also_checks", []) if p != meta["breaks_property"]]
         r = sh("git -C %s apply %s" % (repo, os.path.join(d, "patch.diff")))
         if r.returncode != 0:
             with lock:
